@@ -11,7 +11,7 @@ PairObservers == {"Union", "Inter", "Diff", "CovDiff", "UnionMut", "InterMut", "
 
 \* PartialEq for PrefixMap: Iterator::eq over (prefix, value) pairs, with the key type's own
 \* equality (which, for the tuple types, compares host bits too)
-EqAlg(A, B) == IterAll(A) = IterAll(B)
+EqAlg(A, B) == EqAlg1(A, B)
 
 \* result of a pair observer: <<>> when one of the two views does not exist
 PairObserve(A, B, e) ==
